@@ -3,7 +3,7 @@
    expandExpr, extractNonterm, sortTail, Rearrange, list/optional rule synthesis), Syn/ExtLang.v (the
    meaning of the extended notation: [den]).  Lemmas: Syn/Expand_proofs.v. *)
 From Coq Require Import List ZArith Bool Lia Permutation.
-From TM Require Import Gram.Cfg Gram.Derive Syn.Expr Syn.Expand Syn.ExtLang Syn.Expand_proofs Syn.Expand_global Syn.Expand_derives Syn.Expand_derives2 Syn.Expand_correct Syn.SortPerm Syn.Expand_perm Syn.ExpandWf Syn.Expand_wf_proofs.
+From TM Require Import Gram.Cfg Gram.Derive Syn.Expr Syn.Expand Syn.ExtLang Syn.Expand_proofs Syn.Expand_global Syn.Expand_derives Syn.Expand_derives2 Syn.Expand_derives3 Syn.CfgNonneg Syn.Expand_correct Syn.SortPerm Syn.Expand_perm Syn.ExpandWf Syn.Expand_wf_proofs.
 Import ListNotations.
 Local Open Scope Z_scope.
 
@@ -27,9 +27,13 @@ Local Open Scope Z_scope.
    hold set nonterminals (ESet i: one rule per terminal of the resolved set, [setterms i], which must list exactly
    [setden i] and lie inside [0,T) -- sets are resolved by C15) and lookahead nonterminals (the empty rule): these are
    all the tables [to_cfg] accepts.  C13_expand_correct_derives combines it with C13_expand_correct_wf into the FULL
-   STATEMENT above (derivations of the plain grammar read from the expanded model on the right-hand side); its
-   hypotheses besides wf_model are the executable [to_cfg ... = Some g] and the shape of the output table (every
-   value a choice of flat rules, a set or a lookahead nonterminal -- what C13_expand_shape establishes per rule).
+   STATEMENT above (derivations of the plain grammar read from the expanded model on the right-hand side).  Its
+   hypotheses: the static wf_model; two executable conditions, [to_cfg ... = Some g] and [nonneg_rules g] (no negative
+   symbol in g) -- both evaluated by the glue on the implementation's output of every case; and that [setterms] lists
+   exactly the denotation of every set inside [0,T) (C15).  The shape of the output table (flat choice / set /
+   lookahead per nonterminal) is DERIVED from the success of to_cfg (Expand_derives3.to_cfg_shape), not assumed.
+   NOT proved: that to_cfg always succeeds on the output of Expand for a wf_model with res_error = false (per rule:
+   C13_expand_shape); it is checked per case.
    The per-step theorem about one nonterminal keeps its historical suffix _partial (it is a step of the whole). *)
 
 (* the whole of Expand, static hypothesis only *)
@@ -91,36 +95,26 @@ Theorem C13_flat_table_is_cfg :
 Proof. exact to_cfg_language. Qed.
 
 (* the same for the tables Expand really produces: set nonterminals (with their resolved terminals) and lookahead
-   nonterminals (empty rule) may remain *)
+   nonterminals (empty rule) may remain; side conditions are executable (to_cfg succeeds, no negative symbol) *)
 Theorem C13_table_with_sets_is_cfg :
   forall T (setden : Z -> Z -> Prop) setterms vals g, 0 <= T ->
-    to_cfg T setterms vals = Some g ->
+    to_cfg T setterms vals = Some g -> nonneg_rules g = true ->
     (forall i a, setden i a <-> In a (setterms i)) ->
     (forall i a, In a (setterms i) -> 0 <= a < T) ->
-    (forall k, (k < length vals)%nat ->
-      (exists alts, nth k vals (EChoice []) = EChoice alts /\
-         forall a, In a alts -> exists rhs, rhs_of a = Some rhs /\ forall s, In s rhs -> 0 <= s) \/
-      (exists i, nth k vals (EChoice []) = ESet i) \/
-      (exists subs, nth k vals (EChoice []) = ELookahead subs)) ->
     forall X w, T <= X -> (lfp T setden vals X w <-> derives g X w).
-Proof. exact to_cfg_language_sets. Qed.
+Proof. exact to_cfg_language_checked. Qed.
 
 (* FULL STATEMENT: extended language of X = derivations of the plain grammar read from the expanded model *)
 Theorem C13_expand_correct_derives :
   forall (setden : Z -> Z -> Prop) setterms m g,
     wf_model m = true ->
-    to_cfg (nterms m) setterms (map snd (res_nonterms (expand m))) = Some g ->
+    to_cfg (nterms m) setterms (map snd (res_nonterms (expand m))) = Some g -> nonneg_rules g = true ->
     (forall i a, setden i a <-> In a (setterms i)) ->
     (forall i a, In a (setterms i) -> 0 <= a < nterms m) ->
-    (forall k, (k < length (res_nonterms (expand m)))%nat ->
-      (exists alts, nth k (map snd (res_nonterms (expand m))) (EChoice []) = EChoice alts /\
-         forall a, In a alts -> exists rhs, rhs_of a = Some rhs /\ forall s, In s rhs -> 0 <= s) \/
-      (exists i, nth k (map snd (res_nonterms (expand m))) (EChoice []) = ESet i) \/
-      (exists subs, nth k (map snd (res_nonterms (expand m))) (EChoice []) = ELookahead subs)) ->
     forall X, nterms m <= X < nterms m + Z.of_nat (length (m_nonterms m)) -> forall w,
       lfp (nterms m) setden (map nt_value (m_nonterms m)) X w <->
       derives g (perm_sym (nterms m) (x_perm (snd (phase1 m))) X) w.
-Proof. exact expand_correct_derives. Qed.
+Proof. exact expand_correct_derives_checked. Qed.
 
 (* the least solution is a solution: X derives w iff the value of X denotes w under the least solution *)
 Theorem C13_language_is_a_solution :
@@ -241,8 +235,9 @@ Print Assumptions C13_flat_table_is_cfg.
 (* non-vacuity: the expanded example model (three flat choices and the set nonterminal set(a | b)) is accepted by to_cfg *)
 Example C13_example_sets_table :
   wf_model ex_model = true /\
-  exists g, to_cfg 3 (fun _ => [0; 1]) (map snd (res_nonterms (expand ex_model))) = Some g /\ length (g_rules g) = 9%nat.
-Proof. split; [vm_compute; reflexivity|]. eexists. split; vm_compute; reflexivity. Qed.
+  exists g, to_cfg 3 (fun _ => [0; 1]) (map snd (res_nonterms (expand ex_model))) = Some g /\ nonneg_rules g = true /\
+            length (g_rules g) = 9%nat.
+Proof. split; [vm_compute; reflexivity|]. eexists. split; [vm_compute; reflexivity|]. split; vm_compute; reflexivity. Qed.
 
 Print Assumptions C13_table_with_sets_is_cfg.
 Print Assumptions C13_expand_correct_derives.
